@@ -1009,7 +1009,7 @@ class World:
             it.ghost['alloc!entry'] = it.alloc_mark()
             for g in self.ghost_names:
                 self.ghost_seq(it, g)
-            for text in list(c['requires']) + list(c.get('assumes', [])) + list(extra_requires):
+            for text in list(c['requires']) + list(c.get('assumes', [])) + list(c.get('vc_requires', [])) + list(extra_requires):
                 it.assume(self.clause(it, text, env, ctx, 'assume'))
             # known-finding input classes: the clause is proved for every input outside them
             excl = {}
